@@ -99,9 +99,15 @@ func AccessPath(v ssa.Value) Path {
 						v = d
 						continue
 					}
+					v = x.X
+					continue
+				case *ssa.FieldAddr:
+					v = x.X
+					continue
 				}
-				v = x.X
-				continue
+				// a value loaded from an element, a global, a pointer result…:
+				// the loaded value itself is the root
+				return Path{Root: v, Fields: fields}
 			}
 		case *ssa.FieldAddr:
 			if f := structField(x.X.Type(), x.Field); f != nil {
@@ -862,4 +868,69 @@ func samePathFields(a, b ssa.Value) bool {
 		return true
 	}
 	return fa.Field == fb.Field && samePathFields(fa.X, fb.X)
+}
+
+// RootOf returns the canonical root of v's access path: a local variable cell
+// with a single definition is replaced by that definition.
+func RootOf(v ssa.Value) ssa.Value {
+	r := AccessPath(v).Root
+	for depth := 0; depth < 8; depth++ {
+		switch x := r.(type) {
+		case *ssa.Alloc:
+			if d := SingleDef(x); d != nil {
+				r = AccessPath(d).Root
+				continue
+			}
+		case *ssa.FreeVar:
+			if d := SingleDef(x); d != nil {
+				r = AccessPath(d).Root
+				continue
+			}
+			if b := FreeVarBinding(x); b != nil {
+				r = b
+				continue
+			}
+		}
+		break
+	}
+	return Canon(r)
+}
+
+// RetVal returns the i-th result of a return, looking through the result
+// cells go/ssa introduces in functions with defers (results are stored to a
+// cell, `rundefers` runs, the cell is loaded and returned): the value stored
+// last in the same block is returned.
+func RetVal(r *ssa.Return, i int) ssa.Value {
+	if i < 0 || i >= len(r.Results) {
+		return nil
+	}
+	v := r.Results[i]
+	u, ok := v.(*ssa.UnOp)
+	if !ok || u.Op != token.MUL {
+		return v
+	}
+	a, ok := u.X.(*ssa.Alloc)
+	if !ok {
+		return v
+	}
+	b := r.Block()
+	for k := len(b.Instrs) - 1; k >= 0; k-- {
+		if st, ok := b.Instrs[k].(*ssa.Store); ok && st.Addr == ssa.Value(a) {
+			return st.Val
+		}
+	}
+	// not stored in this block: if the cell has a single definition use it
+	if d := SingleDef(a); d != nil {
+		return d
+	}
+	return v
+}
+
+// RetVals returns all results of r resolved with RetVal.
+func RetVals(r *ssa.Return) []ssa.Value {
+	out := make([]ssa.Value, len(r.Results))
+	for i := range r.Results {
+		out[i] = RetVal(r, i)
+	}
+	return out
 }
